@@ -19,6 +19,7 @@ class StepLoop(asyncio.SelectorEventLoop):
         self.contexts = []  # every context passed to call_exception_handler
         self._vtime = 0.0
         self.ticks = 0
+        self.wakeups = 0
         self.all_tasks = []  # every task ever created on this loop (asyncio.all_tasks() forgets finished ones)
         self.set_exception_handler(self._record_context)
         self.set_task_factory(self._make_task)
@@ -63,8 +64,9 @@ class StepLoop(asyncio.SelectorEventLoop):
         return self._vtime
 
     def _write_to_self(self):
-        # the selector is never polled, so waking it up is pointless (and would fill the socket buffer)
-        pass
+        # the selector is never polled, so waking it up is pointless (and would fill the socket buffer); the calls are
+        # counted: a hand-off from another thread that does not wake the loop would stall a real, idle loop
+        self.wakeups += 1
 
     def _move_due_timers(self):
         while self._scheduled and self._scheduled[0]._cancelled:
